@@ -13,6 +13,7 @@ Conforms == LET e == Expected(params, path) IN
                           /\ Rec.ids_out = ids          \* identifiers: strings, same order
                           /\ Rec.values_ok              \* values equal (single precision through tensors)
 \* additions that must be refused are refused with the container's input error, valid ones accepted
-AddRules == Rec.adds_ok
+\* (checked on the freshly built container and again on the container obtained through the conversion path)
+AddRules == Rec.adds_ok /\ (Rec.status = "ok" => Rec.adds_after_ok)
 Covered == IOEnv.EXPECT_COUNT = "0" \/ Cardinality({<<Log[i].ids, Log[i].decls, Log[i].path>> : i \in 1..Len(Log)}) = atoi(IOEnv.EXPECT_COUNT)
 =============================================================================
